@@ -32,6 +32,23 @@ func runC17(c *Ctx) {
 	statSizeAlways(c, "R17.6")
 }
 
+// beforeEveryHeader: every path of lit to any WriteHeader call passes a.
+func beforeEveryHeader(c *Ctx, lit *ssa.Function, isA func(ssa.Instruction) bool) bool {
+	whs := c.P.CallsTo(lit, "(*archive/tar.Writer).WriteHeader")
+	if len(whs) == 0 {
+		return false
+	}
+	ok, _, und := c.Precedes(lit, nil, nil, isA, func(in ssa.Instruction) bool {
+		for _, w := range whs {
+			if in == ssa.Instruction(w) {
+				return true
+			}
+		}
+		return false
+	})
+	return ok && !und
+}
+
 func hdrStores(lit *ssa.Function, field string) []*ssa.Store {
 	return fieldStoresIn(lit, "archive/tar.Header."+field)
 }
@@ -62,62 +79,91 @@ func r17_1(c *Ctx, rule string, lit *ssa.Function) {
 			continue
 		}
 		for _, s := range ss {
-			ok := c.DerivesFrom(s.Val, func(v ssa.Value) bool { return isFieldLoad(v, e.stat) }, 3) && c.alwaysBefore(lit, s, wh)
+			s := s
+			ok := c.DerivesFrom(s.Val, func(v ssa.Value) bool { return isFieldLoad(v, e.stat) }, 3) && beforeEveryHeader(c, lit, func(in ssa.Instruction) bool { return in == ssa.Instruction(s) })
 			c.R.Check(ok, rule, con, c.pos(s), "set from "+e.stat+" before WriteHeader", "hdr."+e.hdr+" is not set from "+e.stat+" before the header is written")
 		}
 	}
-	// Name
+	// Name: one or more stores (`name += "/"` on a local, or `hdr.Name += "/"` on the field)
 	ns := hdrStores(lit, "Name")
-	c.R.Exact(rule, "stores to hdr.Name", len(ns), 1)
+	c.R.Floor(rule, "stores to hdr.Name", len(ns), 1)
+	if len(ns) == 0 {
+		return
+	}
+	isName := func(in ssa.Instruction) bool {
+		for _, s := range ns {
+			if in == ssa.Instruction(s) {
+				return true
+			}
+		}
+		return false
+	}
+	okSlash, before := true, false
 	for _, s := range ns {
-		okSlash := c.DerivesFrom(s.Val, func(v ssa.Value) bool {
+		if !c.DerivesFrom(s.Val, func(v ssa.Value) bool {
 			call, ok := v.(*ssa.Call)
 			if !ok || c.P.CalleeName(call) != "path/filepath.ToSlash" {
 				return false
 			}
 			_, isP := eng.Strip(call.Call.Args[0]).(*ssa.Parameter)
 			return isP
-		}, 4)
-		c.R.Check(okSlash && c.alwaysBefore(lit, s, wh), rule, c.name(lit)+"/hdr.Name", c.pos(s), "Name = ToSlash(walk path), before WriteHeader", "the member name is not the slash form of the walked path")
-		// trailing slash for directories
-		x := c.explorer(lit)
-		as := map[string]bool{}
-		for _, call := range c.P.CallsTo(lit, "(io/fs.FileInfo).IsDir") {
-			if cl, ok := call.(*ssa.Call); ok {
-				as[x.KeyAtEntry(cl)] = true
-			}
+		}, 5) {
+			okSlash = false
 		}
-		for _, call := range c.P.CallsTo(lit, "strings.HasSuffix") {
-			if cl, ok := call.(*ssa.Call); ok {
-				as[x.KeyAtEntry(cl)] = false
-			}
+		s := s
+		if beforeEveryHeader(c, lit, func(in ssa.Instruction) bool { return in == ssa.Instruction(s) }) {
+			before = true
 		}
-		ex := c.explorer(lit)
-		ex.Assume = as
-		bad, seen := 0, 0
-		ex.Target = func(in ssa.Instruction, st *eng.State) bool {
-			if in != ssa.Instruction(s) {
-				return false
-			}
-			seen++
-			k := ex.SourceKey(s.Val, st)
-			if !strings.HasSuffix(k, `+c:"/")`) {
-				bad++
-			}
-			return true
-		}
-		ex.StopAtTarget = true
-		ex.Run()
-		c.R.Check(seen > 0 && bad == 0 && len(as) >= 2, rule, c.name(lit)+"/hdr.Name/dir-slash", c.pos(s), "directories are named with a trailing slash", "a directory member's name does not get a trailing slash")
 	}
+	// nothing renames the member once its header is written
+	exA := c.explorer(lit)
+	exA.From = wh
+	exA.Target = func(in ssa.Instruction, st *eng.State) bool { return isName(in) }
+	exA.StopAtTarget = true
+	late := len(exA.Run()) > 0 || exA.Exhausted
+	c.R.Check(okSlash && before && !late, rule, c.name(lit)+"/hdr.Name", c.pos(ns[0]), "Name = ToSlash(walk path), before WriteHeader", "the member name is not the slash form of the walked path")
+	// trailing slash for directories: the name in the header when it is written
+	x := c.explorer(lit)
+	as := map[string]bool{}
+	for _, call := range c.P.CallsTo(lit, "(io/fs.FileInfo).IsDir") {
+		if cl, ok := call.(*ssa.Call); ok {
+			as[x.KeyAtEntry(cl)] = true
+		}
+	}
+	for _, call := range c.P.CallsTo(lit, "strings.HasSuffix") {
+		if cl, ok := call.(*ssa.Call); ok {
+			as[x.KeyAtEntry(cl)] = false
+		}
+	}
+	const slashed = "u:name-ends-with-slash"
+	ex := c.explorer(lit)
+	ex.Assume = as
+	bad, seen := 0, 0
+	ex.Barrier = func(in ssa.Instruction, st *eng.State) bool {
+		if st2, ok := in.(*ssa.Store); ok && isName(in) {
+			st.Facts[slashed] = strings.HasSuffix(ex.SourceKey(st2.Val, st), `+c:"/")`)
+		}
+		return false
+	}
+	ex.Target = func(in ssa.Instruction, st *eng.State) bool {
+		if in != ssa.Instruction(wh) {
+			return false
+		}
+		seen++
+		if !st.Facts[slashed] {
+			bad++
+		}
+		return true
+	}
+	ex.StopAtTarget = true
+	ex.Run()
+	c.R.Check(seen > 0 && bad == 0 && len(as) >= 2 && !ex.Exhausted, rule, c.name(lit)+"/hdr.Name/dir-slash", c.pos(ns[0]), "directories are named with a trailing slash", "a directory member's name does not get a trailing slash")
 }
 
-func r17_2(c *Ctx, rule string, lit *ssa.Function) {
-	c.R.Rule(rule, "members with a link name: Size = 0; Typeflag = TypeSymlink when the mode says symlink, TypeLink otherwise; members without link name keep FileInfoHeader's type and size")
-	x := c.explorer(lit)
-	// Linkname != "" test on the header
-	link := map[string]bool{}
-	nolink := map[string]bool{}
+// linkNameTests: the tests `Linkname != ""` on the header or the stat, as
+// assumptions "the member has a link name" / "has none".
+func linkNameTests(c *Ctx, lit *ssa.Function, x *eng.Explorer) (link, nolink map[string]bool) {
+	link, nolink = map[string]bool{}, map[string]bool{}
 	eng.Instrs(lit, func(in ssa.Instruction) {
 		bo, ok := in.(*ssa.BinOp)
 		if !ok || (bo.Op != token.EQL && bo.Op != token.NEQ) {
@@ -129,6 +175,13 @@ func r17_2(c *Ctx, rule string, lit *ssa.Function) {
 			nolink[k] = bo.Op == token.EQL
 		}
 	})
+	return
+}
+
+func r17_2(c *Ctx, rule string, lit *ssa.Function) {
+	c.R.Rule(rule, "members with a link name: Size = 0; Typeflag = TypeSymlink when the mode says symlink, TypeLink otherwise; members without link name keep FileInfoHeader's type and size")
+	x := c.explorer(lit)
+	link, nolink := linkNameTests(c, lit, x)
 	base := c.name(lit)
 	if len(link) == 0 {
 		c.R.Fail(rule, base+"/link-test", c.P.Pos(lit.Pos()), "no test of the link name: link members keep the size and type of a regular file")
@@ -175,17 +228,25 @@ func r17_2(c *Ctx, rule string, lit *ssa.Function) {
 		return in == ssa.Instruction(symStore) || in == ssa.Instruction(linkStore)
 	}, isWH, "assigning the link type", "WriteHeader for a member with a link name")
 	// size
-	var zero *ssa.Store
+	var zeros []*ssa.Store
 	for _, s := range hdrStores(lit, "Size") {
 		if k, ok := eng.ConstInt(s.Val); ok && k == 0 {
-			zero = s
+			zeros = append(zeros, s)
 		}
 	}
-	if zero == nil {
+	isZero := func(in ssa.Instruction) bool {
+		for _, z := range zeros {
+			if in == ssa.Instruction(z) {
+				return true
+			}
+		}
+		return false
+	}
+	if len(zeros) == 0 {
 		c.R.Fail(rule, base+"/link-size-zero", c.P.Pos(lit.Pos()), "link members keep their size: the reader expects a payload that is not written")
 	} else {
-		c.ObPrecedes(rule, base+"/link-size-zero", lit, link, is(zero), isWH, "Size = 0", "WriteHeader for a member with a link name")
-		c.ObUnreachable(rule, base+"/size-kept-otherwise", lit, nolink, is(zero), "zeroing the size", "the entry has no link name")
+		c.ObPrecedes(rule, base+"/link-size-zero", lit, link, isZero, isWH, "Size = 0", "WriteHeader for a member with a link name")
+		c.ObUnreachable(rule, base+"/size-kept-otherwise", lit, nolink, isZero, "zeroing the size", "the entry has no link name")
 	}
 }
 
@@ -218,6 +279,16 @@ func r17_3(c *Ctx, rule string, lit *ssa.Function) {
 		c.R.Check(len(ex.Run()) == 0, rule, fmt.Sprintf("%s/pax-record#%d/before-header", c.name(lit), n), c.pos(mu), "records are added before the header is written", "PAX records are added after WriteHeader")
 	})
 	c.R.Floor(rule, "PAX record assignments", n, 1)
+	// no header is written before the stat's xattrs were looked at
+	readsXattrs := func(in ssa.Instruction) bool {
+		v, ok := in.(ssa.Value)
+		if !ok {
+			return false
+		}
+		o, _, _, isLoad := eng.LoadedFieldRaw(v)
+		return isLoad && o == "types.Stat.Xattrs"
+	}
+	c.R.Check(beforeEveryHeader(c, lit, readsXattrs), rule, c.name(lit)+"/xattrs-before-every-header", c.pos(wh), "every WriteHeader is preceded by the inspection of stat.Xattrs", "a header can be written without the stat's xattrs having been looked at: that member carries no SCHILY.xattr records")
 	// the map is made when there are xattrs
 	mk := 0
 	for _, s := range hdrStores(lit, "PAXRecords") {
@@ -277,6 +348,38 @@ func r17_4(c *Ctx, rule string, lit *ssa.Function) {
 		keys []string
 		why  string
 	}{{"regular-only", tReg, "the member is not a regular file"}, {"non-empty-only", tSize, "the member's size is zero"}, {"not-for-links", tLink, "the member has a link name"}} {
+		if len(e.keys) == 0 && e.name == "not-for-links" && len(tReg) > 0 {
+			// no test of the link name in the payload condition: the type test
+			// excludes links if every link member was retyped before its header
+			// was written and nothing ever assigns the regular type
+			link, _ := linkNameTests(c, lit, x)
+			tf := hdrStores(lit, "Typeflag")
+			retyped := len(link) > 0 && len(tf) > 0
+			for _, s := range tf {
+				if k, ok := eng.ConstInt(s.Val); !ok || k == '0' || k == 0 {
+					retyped = false
+				}
+			}
+			var wh ssa.CallInstruction
+			for _, call := range c.P.CallsTo(lit, "(*archive/tar.Writer).WriteHeader") {
+				wh = call
+			}
+			if retyped && wh != nil {
+				ok, _, und := c.Precedes(lit, nil, link, func(in ssa.Instruction) bool {
+					for _, s := range tf {
+						if in == ssa.Instruction(s) {
+							return true
+						}
+					}
+					return false
+				}, func(in ssa.Instruction) bool { return in == ssa.Instruction(wh) })
+				retyped = ok && !und
+			}
+			if retyped {
+				c.R.OK(rule, base+"/payload/"+e.name, c.pos(cp), "the payload needs the regular type, every member with a link name was given a link type before its header was written, and no statement assigns the regular type")
+				continue
+			}
+		}
 		if len(e.keys) == 0 {
 			c.R.Fail(rule, base+"/payload/"+e.name, c.pos(cp), "the payload condition lacks the test for: "+e.why)
 			continue
